@@ -1,33 +1,42 @@
-"""Per-property decision procedures."""
+"""Per-property decision procedures: proof obligations + correspondence engines + failing-input search."""
 import json
 import os
 import time
 
 from . import common as C
-from . import e1
-from . import e4
-from . import srcscan
+from . import e1, e2, e3, e4, e5, srcscan
 
 TRUSTED = [
     "Coq 8.16.1 kernel (coqc; vm_compute used for Example/refutation witnesses and for case evaluation; no native_compute)",
     "Print Assumptions under every property theorem must answer 'Closed under the global context' (no axioms)",
     "hand-written Gallina model coq/Model/*.v, tied to /repo by the correspondence engines named in 'engines'",
     "extraction (ExtrOcamlBasic only; nat/positive/N stay Coq datatypes; no Extract Constant) + coq/extract/driver.ml",
-    "harness (Rust drivers, encoders, oracles) under /verif/harness and this Python driver",
+    "source translators vlib/srcscan.py -> coq/Current/Runtime.v (token-level facts of data.rs / convert.rs)",
+    "harness (Rust drivers, encoders, oracles, syn-based dumper of generated code) under /verif/harness and this Python driver",
+    "rustc / LLVM / the allocator / the unwinder are exercised (dev and release), not modelled",
 ]
 
-# property -> configuration
 TABLE = {
     "C01": {"props": "C01.v", "engines": ["e1"], "oracle": ["C01"], "components": ["step"]},
-    "C02": {"props": "C02.v", "engines": ["e1"], "oracle": ["C02"], "components": ["step", "max_size", "max_type_align"]},
-    "C03": {"props": "C03.v", "engines": ["e1"], "oracle": ["C03"], "components": ["step"]},
-    "C12": {"props": "C12.v", "engines": ["e1"], "oracle": ["C12"], "components": ["step", "build"]},
-    "C13": {"props": "C13.v", "engines": ["e1"], "oracle": ["C13"], "components": ["step", "build", "max_size", "max_type_align", "display"]},
-    "C18": {"props": "C18.v", "engines": ["e1"], "oracle": ["C18"], "components": ["step"]},
-    "C20": {"props": "C20.v", "engines": ["e1"], "oracle": ["C20"], "components": ["convert"]},
+    "C02": {"props": "C02.v", "engines": ["e1", "e2", "e3"], "oracle": ["C02"], "components": ["step", "max_size", "max_type_align"]},
+    "C03": {"props": "C03.v", "engines": ["e1", "e2", "e3"], "oracle": ["C03"], "components": ["step"]},
+    "C04": {"props": "C04.v", "engines": ["e2", "e3"]},
+    "C05": {"props": "C05.v", "engines": ["e2", "e3"]},
+    "C06": {"props": "C06.v", "engines": ["e2", "e3"]},
+    "C07": {"props": "C07.v", "engines": ["e2", "e3"]},
     "C08": {"props": "C08.v", "engines": ["e4"]},
     "C09": {"props": "C09.v", "engines": ["e4"]},
     "C10": {"props": "C10.v", "engines": ["e4"]},
+    "C11": {"props": "C11.v", "engines": ["e2", "e5"]},
+    "C12": {"props": "C12.v", "engines": ["e1"], "oracle": ["C12"], "components": ["step", "build"]},
+    "C13": {"props": "C13.v", "engines": ["e1", "e2", "e3", "e5"], "oracle": ["C13"],
+            "components": ["step", "build", "max_size", "max_type_align", "display"]},
+    "C14": {"props": "C14.v", "engines": ["e2", "e5"]},
+    "C15": {"props": "C15.v", "engines": ["e2", "e3"]},
+    "C16": {"props": "C16.v", "engines": ["e2", "e3"]},
+    "C18": {"props": "C18.v", "engines": ["e1"], "oracle": ["C18"], "components": ["step"]},
+    "C19": {"props": "C19.v", "engines": ["e1", "e2"], "oracle": ["C19"], "components": ["step"]},
+    "C20": {"props": "C20.v", "engines": ["e1"], "oracle": ["C20"], "components": ["convert"]},
 }
 
 
@@ -36,59 +45,92 @@ def relevant(diff, comps):
     return any(c == x or c.startswith(x) for x in comps)
 
 
+# ------------------------------------------------------------------------------------------------ E1
 
 E1_RULE = ("request histories: corpus + PRNG(seed) random (1-12 variants, 16-shape palette + random shapes incl. zero-size, "
            "odd sizes, non-power-of-two alignments, 5 entry points, 40% of histories carry invalid/probing requests) "
            "+ small-scope enumeration slice; non-trivial = at least 2 closed variants and 2 accepted adds; distinct = distinct request text")
 
 
-def engine_e1(prop, cfg, tier, seed, kf, broken):
+def engine_e1(prop, cfg, tier, seed):
     res = e1.run_e1(tier, seed)
     C.log("E1: %s%s" % (json.dumps(res["counts"]), " (cached run)" if res.get("cached") else ""))
-    oracle_hits = [o for o in res["oracle"] if o["property"] in cfg["oracle"]]
-    diffs = [d for d in res["diffs"] + res["coq_bad"] if relevant(d, cfg["components"])]
-    if res["coq_errors"]:
-        diffs.append({"source": "vm_compute", "case": -1, "history": "", "component": "step",
-                      "where": "coqc failed on a cases file", "implementation": "", "model": res["coq_errors"][0]})
-    known_keys = {k["key"]: k for k in kf["open"] if k["property"] == prop}
-    violations = []
-    for o in oracle_hits:
-        key = "history=" + o["history"].replace(" ", ",")
-        if key in known_keys:
-            continue
-        violations.append({"kind": "failing-input", "property": prop, "history": o["history"], "what": o["what"],
-                           "found_by": "property oracle on the implementation's own output (%s)" % o["source"],
-                           "replay": "./check %s --replay <this file>" % prop})
-        break
+    hits = [{"input": {"history": o["history"]}, "what": o["what"], "key": "history=" + o["history"].replace(" ", ","),
+             "found_by": "property oracle on the builder's own output (E1 %s)" % o["source"]}
+            for o in res["oracle"] if o["property"] in cfg.get("oracle", [])]
+    diffs = [d for d in res["diffs"] + res["coq_bad"] if relevant(d, cfg.get("components", []))]
+    broken = []
+    if res["coq_errors"] and cfg.get("components"):
+        broken.append("E1: coqc failed on a cases file: %s" % res["coq_errors"][0][-300:])
     if diffs:
         d = diffs[0]
-        broken.append("correspondence E1 (model vs implementation) differs at %s of history `%s`: implementation %s, model %s" % (
+        broken.append("correspondence E1 (builder model vs implementation) differs at %s of history `%s`: implementation %s, model %s" % (
             d["where"], d["history"], d["implementation"][:200], d["model"][:200]))
-    if broken and not violations:
-        # search for a concrete failing input on the implementation alone
-        C.log("broken tie: %s\nsearching for a failing input..." % broken)
+
+    def search():
         found = []
-        for d in diffs[:5]:  # the diverging cases themselves first
+        for d in diffs[:5]:
             if d.get("history"):
                 r = e1.replay_e1(d["history"])
-                found += [o for o in r["oracle"] if o["property"] in cfg["oracle"]]
-        if not found:
+                found += [o for o in r["oracle"] if o["property"] in cfg.get("oracle", [])]
+        if not found and cfg.get("oracle"):
             found = e1.search_e1(seed, e1.plan(tier)["search_random"], cfg["oracle"])
-        if found:
-            o = found[0]
-            violations.append({"kind": "failing-input", "property": prop, "history": o["history"], "what": o["what"],
-                               "broken": broken, "found_by": "search after a broken proof/correspondence (%s)" % o["source"]})
-        else:
-            violations.append({"kind": "no-failing-input-found", "property": prop, "broken": broken,
-                               "first_diverging_case": diffs[0] if diffs else None,
-                               "note": "the property oracle holds on every implementation output explored; "
-                                       "either the model must follow a harmless change of the code, or the search was not deep enough"})
+        return [{"input": {"history": o["history"]}, "what": o["what"], "key": "history=" + o["history"].replace(" ", ","),
+                 "found_by": "search after a broken proof/correspondence (E1 %s)" % o["source"]} for o in found]
+
     info = {"evaluations": sum(v for k, v in res["counts"].items() if not k.endswith("_diffs")),
             "distinct": sum(s.get("distinct_nontrivial", 0) for s in res["stats"].values()),
             "rule": E1_RULE, "samples": res["samples"], "counts": res["counts"], "coq_cases": res["coq_cases"],
-            "stats": res["stats"], "ndiffs": len(diffs), "noracle": len(oracle_hits)}
-    return violations, info
+            "stats": res["stats"], "ndiffs": len(diffs)}
+    return {"hits": hits, "broken": broken, "info": info, "search": search, "first_diff": diffs[0] if diffs else None}
 
+
+# ------------------------------------------------------------------------------------------------ E2
+
+E2_RULE = ("generated modules: definitions from the E1/E2 corpora and PRNG(seed) random histories (synthetic resolver), each generated with "
+           "the fragment selections none / clone / serde / clone+serde / serde+clone; every item of the real text (parsed with syn) is compared "
+           "with the model Gen.gen; distinct = distinct module dumps containing at least one conversion")
+
+
+def engine_e2(prop, cfg, tier, seed):
+    res = e2.run_e2(tier, seed)
+    C.log("E2: %s%s" % (json.dumps(res["counts"]), " (cached run)" if res.get("cached") else ""))
+    hits = [{"input": {"history": o["history"], "fragments": o["config"]}, "what": o["what"], "key": "history=" + o["history"].replace(" ", ","),
+             "found_by": "oracle on the generator's own output (E2)"} for o in res["oracle"] if o["property"] == prop]
+    diffs = [d for d in res["diffs"] if prop in d["props"]]
+    broken = []
+    if diffs:
+        d = diffs[0]
+        broken.append("correspondence E2 (generator model vs generated text) differs at %s for history `%s` fragments [%s]: generated `%s`, model `%s`" % (
+            d["where"], d["history"], d["config"], d["implementation"][:300], d["model"][:300]))
+    info = {"evaluations": res["counts"]["modules"], "distinct": res["distinct"], "rule": E2_RULE, "samples": res["samples"],
+            "counts": res["counts"], "coq_cases": 0, "stats": res["stats"], "ndiffs": len(diffs)}
+    return {"hits": hits, "broken": broken, "info": info, "search": None, "first_diff": diffs[0] if diffs else None}
+
+
+# ------------------------------------------------------------------------------------------------ E3
+
+E3_RULE = ("executions of real generated code: corpus + PRNG(seed) definitions over 12 instrumented field types (plain data of sizes 1..8, "
+           "[u8;3], owned heap values, zero-size with and without destructor, align-16, String, Option, non-Copy), all fragments; per variant: "
+           "new/accessors/unpack on the stack, in a Box, in a Vec, larger capacity, every mutable accessor (frame), by-value rebinding, new_uninit, "
+           "clone / clone_from / panicking clone at every tracked field, JSON + bincode round trips and malformed inputs at every position, "
+           "the 4 conversion forms, 4 chains through all variants; ledger of live instances, alignment of every reference, runtime hooks "
+           "(bounds, alignment, per-byte ownership shadow) in dev, no hooks in release; distinct = distinct definitions")
+
+
+def engine_e3(prop, cfg, tier, seed):
+    res = e3.run_e3(tier, seed)
+    C.log("E3: %s modules=%d scenarios=%d%s" % (json.dumps(res["counts"]), res["modules"], res["scenarios"], " (cached run)" if res.get("cached") else ""))
+    hits = [{"input": {"definition": o["spec"], "profile": o["profile"]}, "what": o["what"], "key": "definition=" + o["spec"].replace(" ", ","),
+             "found_by": "execution of the generated code with instrumented field types (E3, %s)" % o["profile"]}
+            for o in res["oracle"] if o["property"] == prop]
+    broken = ["E3: " + b for b in res["broken"]]
+    info = {"evaluations": res["scenarios"] * 2, "distinct": res["distinct"], "rule": E3_RULE, "samples": res["samples"],
+            "counts": dict(res["counts"], modules=res["modules"], scenarios_per_profile=res["scenarios"]), "coq_cases": 0, "stats": {}, "ndiffs": 0}
+    return {"hits": hits, "broken": broken, "info": info, "search": None, "first_diff": None}
+
+
+# ------------------------------------------------------------------------------------------------ E4
 
 E4_RULE = ("vector conversion cases: for every length up to the tier's bound EVERY script that matters (prefix of convert/abandon, each with or "
            "without modifying the previous output, optionally ended by an error return or one of three panic kinds), for 4 element pairs "
@@ -97,45 +139,57 @@ E4_RULE = ("vector conversion cases: for every length up to the tier's bound EVE
            "distinct = distinct (pair, length, script up to the failure)")
 
 
-def engine_e4(prop, cfg, tier, seed, kf, broken):
+def engine_e4(prop, cfg, tier, seed):
     res = e4.run_e4(tier, seed)
     C.log("E4: %s kinds=%s%s" % (json.dumps(res["counts"]), res["kinds"], " (cached run)" if res.get("cached") else ""))
-    oracle_hits = [o for o in res["oracle"] if o["property"] == prop]
+    fmt = "<element pair> <length> <extra capacity> <script codes: 2*action+modify_prev; actions 0 convert 1 abandon 2 Err 3-5 panic>"
+    hits = [{"input": {"case": o["case"], "profile": o["profile"], "format": fmt}, "what": o["what"], "key": "case=" + o["case"].replace(" ", ","),
+             "found_by": "ledger / allocator oracle on the implementation (E4)"} for o in res["oracle"] if o["property"] == prop]
     diffs = [d for d in res["diffs"] if d["property"] == prop]
+    broken = []
     if res.get("coq_error"):
-        diffs.append({"property": prop, "profile": "vm_compute", "case": "", "implementation": "", "model": res["coq_error"]})
-    violations = []
-    if oracle_hits:
-        o = oracle_hits[0]
-        violations.append({"kind": "failing-input", "property": prop, "case": o["case"], "profile": o["profile"], "what": o["what"],
-                           "format": "<element pair> <length> <extra capacity> <script codes: 2*action+modify_prev; actions 0 convert 1 abandon 2 Err 3-5 panic>",
-                           "found_by": "ledger / allocator oracle on the implementation (E4)"})
+        broken.append("E4: coqc failed on the cases file: " + res["coq_error"][-300:])
     if diffs:
         d = diffs[0]
         broken.append("correspondence E4 (model vs implementation, %s) differs on case `%s`: implementation %s, model %s" % (
             d["profile"], d["case"], d["implementation"], d["model"]))
-    if broken and not violations:
-        # the explored space is exhaustive up to the bound, so the search is the oracle over the same run;
-        # a thorough-tier sweep is the deeper search
-        if tier != "thorough":
-            deeper = e4.run_e4("thorough", seed)
-            hits = [o for o in deeper["oracle"] if o["property"] == prop]
-            if hits:
-                o = hits[0]
-                violations.append({"kind": "failing-input", "property": prop, "case": o["case"], "profile": o["profile"], "what": o["what"],
-                                   "broken": broken, "found_by": "thorough sweep after a broken proof/correspondence"})
-        if not violations:
-            violations.append({"kind": "no-failing-input-found", "property": prop, "broken": broken,
-                               "first_diverging_case": diffs[0] if diffs else None,
-                               "note": "ledger and allocator oracles hold on every case explored"})
+
+    def search():
+        if tier == "thorough":
+            return []
+        deeper = e4.run_e4("thorough", seed)
+        return [{"input": {"case": o["case"], "profile": o["profile"], "format": fmt}, "what": o["what"], "key": "case=" + o["case"].replace(" ", ","),
+                 "found_by": "thorough sweep after a broken proof/correspondence (E4)"} for o in deeper["oracle"] if o["property"] == prop]
+
     n = res["kinds"].get(prop, 0)
     info = {"evaluations": 2 * n, "distinct": res["distinct"] if prop != "C10" else res["kinds"].get("C10", 0),
             "rule": E4_RULE, "samples": res["samples"], "counts": res["counts"], "coq_cases": res.get("coq_cases", 0),
-            "stats": {"cases_by_model_outcome": res["kinds"]}, "ndiffs": len(diffs), "noracle": len(oracle_hits)}
-    return violations, info
+            "stats": {"cases_by_model_outcome": res["kinds"]}, "ndiffs": len(diffs)}
+    return {"hits": hits, "broken": broken, "info": info, "search": search, "first_diff": diffs[0] if diffs else None}
 
 
-ENGINES = {"e1": engine_e1, "e4": engine_e4}
+# ------------------------------------------------------------------------------------------------ E5
+
+E5_RULE = ("compile probes (one rustc target each): C11 - for 10 field types x first/later variant x removed-or-not: unperturbed (must compile), "
+           "recorded size smaller/larger, alignment smaller/larger, may-be-uninit on non-Copy types, same type recorded twice with one wrong "
+           "entry (must be rejected); C13 - sampled definitions x 5 fragment selections must compile; C14 - Send/Sync probes of record types with "
+           "Send+Sync, !Send, !Sync fields; distinct = distinct probes")
+
+
+def engine_e5(prop, cfg, tier, seed):
+    res = e5.run_e5(tier, seed)
+    C.log("E5: %s%s" % (json.dumps(res["counts"]), " (cached run)" if res.get("cached") else ""))
+    hits = [{"input": {"probe": o["probe"], "expected": o["expected"], "compiler_said": o["got"], "first_error": o["compiler"]},
+             "what": o["what"], "key": "probe=" + o["probe"].split(" ")[0],
+             "found_by": "rustc on a generated module (E5)"} for o in res["oracle"] if o["property"] == prop]
+    c = res["counts"].get(prop, {"ok": 0, "reject": 0})
+    info = {"evaluations": c["ok"] + c["reject"], "distinct": c["ok"] + c["reject"], "rule": E5_RULE,
+            "samples": [p for p in res["probes"] if p["property"] == prop][:4], "counts": {"probes": res["counts"]}, "coq_cases": 0,
+            "stats": {}, "ndiffs": 0}
+    return {"hits": hits, "broken": [], "info": info, "search": None, "first_diff": None}
+
+
+ENGINES = {"e1": engine_e1, "e2": engine_e2, "e3": engine_e3, "e4": engine_e4, "e5": engine_e5}
 
 
 def run(prop, tier, seed, t0):
@@ -149,29 +203,71 @@ def run(prop, tier, seed, t0):
         C.log(out[-3000:])
     pok, theorems, assum, pout = (False, [], {}, "") if not ok else C.coq_props(cfg["props"])
     proof_ok = ok and not gate and pok
+    if ok and not pok:
+        C.log(pout[-2500:])
     C.log("coq: build %s (%.0fs), source gate %s, %s: %d statements, assumptions %s" % (
         "ok" if ok else "FAILED", secs, "ok" if not gate else gate[:3], cfg["props"], len(theorems), assum))
-    # ---------------------------------------------------------------- correspondence
-    kf = C.known_findings()
     broken = []
     if not proof_ok:
         broken.append("proof obligation: coq/Props/%s does not check (%s)" % (
-            cfg["props"], "build failed" if not ok else ("source gate: %s" % gate[:2] if gate else "assumptions/compile: %s" % assum)))
-    eng = ENGINES[cfg["engines"][0]]
-    violations, info = eng(prop, cfg, tier, seed, kf, broken)
+            cfg["props"], "build failed" if not ok else ("source gate: %s" % gate[:2] if gate else
+                                                         "it does not compile / an assumption is not closed: %s ... %s" % (assum, pout[-400:]))))
+    # ---------------------------------------------------------------- correspondence engines
+    kf = C.known_findings()
+    known = {k["key"]: k for k in kf["open"] if k["property"] == prop}
+    results = [(e, ENGINES[e](prop, cfg, tier, seed)) for e in cfg["engines"]]
+    hits, known_hit = [], {}
+    for e, r in results:
+        broken += r["broken"]
+        for h in r["hits"]:
+            if h["key"] in known:
+                known_hit[h["key"]] = h
+            else:
+                hits.append(h)
+    violations = []
+    if hits:
+        h = hits[0]
+        violations.append({"kind": "failing-input", "property": prop, "input": h["input"], "what": h["what"], "found_by": h["found_by"],
+                           "also_broken": broken, "other_failing_inputs": [x["what"][:200] for x in hits[1:6]],
+                           "replay": "./check %s --replay <this file>" % prop})
+    elif broken:
+        C.log("broken tie: %s\nsearching for a failing input..." % broken)
+        found = []
+        for e, r in results:
+            if r["search"]:
+                found += [h for h in r["search"]() if h["key"] not in known]
+            if found:
+                break
+        if found:
+            h = found[0]
+            violations.append({"kind": "failing-input", "property": prop, "input": h["input"], "what": h["what"], "found_by": h["found_by"],
+                               "also_broken": broken})
+        else:
+            firsts = [r["first_diff"] for e, r in results if r["first_diff"]]
+            violations.append({"kind": "no-failing-input-found", "property": prop, "broken": broken,
+                               "first_diverging_case": firsts[0] if firsts else None,
+                               "note": "every property oracle holds on every implementation output explored (%s); either the model must follow "
+                                       "a harmless change of the code, or the search was not deep enough" % ", ".join(cfg["engines"])})
     # ---------------------------------------------------------------- evidence
     nobl = len(theorems)
-    evaluations = info["evaluations"]
-    distinct = info["distinct"]
+    evaluations = sum(r["info"]["evaluations"] for e, r in results)
+    distinct = sum(r["info"]["distinct"] for e, r in results)
+    samples = []
+    for e, r in results:
+        samples += [{"engine": e, "case": s} for s in r["info"]["samples"][:3]]
     cov = {
         "obligations": max(nobl, 1), "discharged": nobl if proof_ok else 0,
-        "checker_cmd": "cd /verif/coq && make -j16 && coqc -Q Model Truc.Model -Q Proofs Truc.Proofs -Q Props Truc.Props Props/%s" % cfg["props"],
+        "checker_cmd": "cd /verif/coq && make -j16 && coqc -Q Model Truc.Model -Q Proofs Truc.Proofs -Q Props Truc.Props -Q Current Truc.Current Props/%s" % cfg["props"],
         "trusted_base": TRUSTED, "theorems": theorems, "print_assumptions": assum,
         "evaluations": evaluations, "distinct_nontrivial": distinct,
-        "rule": info["rule"],
-        "samples": info["samples"][:6], "engines": cfg["engines"], "engine_counts": info["counts"],
-        "cases_evaluated_inside_coq": info["coq_cases"], "input_distribution": info.get("stats", {}),
-        "model_vs_impl_differences": info["ndiffs"], "oracle_failures": info["noracle"],
+        "rule": " || ".join("%s: %s" % (e, r["info"]["rule"]) for e, r in results),
+        "samples": samples, "engines": cfg["engines"],
+        "engine_counts": {e: r["info"]["counts"] for e, r in results},
+        "cases_evaluated_inside_coq": sum(r["info"]["coq_cases"] for e, r in results),
+        "input_distribution": {e: r["info"].get("stats", {}) for e, r in results},
+        "model_vs_impl_differences": sum(r["info"]["ndiffs"] for e, r in results),
+        "oracle_failures": len(hits), "known_findings_reproduced": len(known_hit),
+        "source_facts": scan,
     }
     if not proof_ok:
         cov["explanation"] = "a proof obligation does not check on this tree: " + "; ".join(broken)[:600]
@@ -183,26 +279,37 @@ def run(prop, tier, seed, t0):
     if violations:
         v = violations[0]
         path = C.write_replay(prop, v)
-        C.log(json.dumps(v, indent=1)[:3000])
+        C.log(json.dumps(v, indent=1)[:3500])
         print("VIOLATION property=%s replay=%s%s" % (prop, path, " no-failing-input-found" if v["kind"] == "no-failing-input-found" else ""))
         return 1
-    for k in kf["open"]:
-        if k["property"] == prop:
+    for key, k in known.items():
+        if key in known_hit:
             print("KNOWN-FINDING: property=%s %s" % (prop, k["what"]))
+        else:
+            C.log("note: the known finding `%s` did not reproduce on this run" % key)
     C.log("%s: holds on everything explored (%d cases, %d inside Coq; %d statements proved, %.0fs)" % (
-        prop, evaluations, info["coq_cases"], nobl, time.time() - t0))
+        prop, evaluations, cov["cases_evaluated_inside_coq"], nobl, time.time() - t0))
     return 0
 
 
 def replay(prop, path):
     v = json.load(open(path))
-    if "history" not in v:
-        print(json.dumps(v, indent=1))
-        return 1
-    r = e1.replay_e1(v["history"])
-    print(json.dumps(r, indent=1))
-    bad = [o for o in r["oracle"] if o["property"] in TABLE[prop]["oracle"]]
-    if bad:
-        print("VIOLATION property=%s replay=%s" % (prop, path))
-        return 1
-    return 0
+    inp = v.get("input", {})
+    if "history" in inp and "fragments" not in inp:
+        r = e1.replay_e1(inp["history"])
+        print(json.dumps(r, indent=1))
+        bad = [o for o in r["oracle"] if o["property"] in TABLE[prop].get("oracle", [])]
+        if bad:
+            print("VIOLATION property=%s replay=%s" % (prop, path))
+            return 1
+        return 0
+    if "case" in inp:
+        r = e4.replay_e4(inp["case"])
+        print(json.dumps(r, indent=1))
+        if r["implementation"] is None or r["implementation"][0] != r["model"] or r["implementation"][1]:
+            print("VIOLATION property=%s replay=%s" % (prop, path))
+            return 1
+        return 0
+    print(json.dumps(v, indent=1))
+    print("this replay names a definition / probe: re-run `./check %s` (the corpus and the seeded generators contain it)" % prop)
+    return 1
